@@ -22,3 +22,4 @@ try:
         print(f'== {p}: exit {r.returncode}')
 finally:
     shutil.rmtree(d, ignore_errors=True)
+    sys.path.insert(0, '/verif/tools'); import treecache; treecache.cleanup(d)
